@@ -39,18 +39,70 @@ def excl_i(atoms, adj, stereo_atoms, stereo_bonds, orb=None):
     return False
 
 
+def _reduced(sub):
+    """homeomorphic reduction of a biconnected ring system: atoms with two ring neighbours are suppressed, parallel edges merged.
+    Returns the simple graph on the branching atoms."""
+    branch = [n for n in sub if len(sub[n]) >= 3]
+    red = {n: set() for n in branch}
+    for n in branch:
+        for m in sub[n]:
+            prev, cur = n, m
+            while len(sub[cur]) == 2:
+                nxt = next(x for x in sub[cur] if x != prev)
+                prev, cur = cur, nxt
+            if cur != n:
+                red[n].add(cur)
+    return red
+
+
+def _three_connected(g):
+    """simple graph with >= 4 vertices that stays connected after removing any two vertices (polyhedral skeleton)"""
+    nodes = list(g)
+    if len(nodes) < 4 or any(len(g[n]) < 3 for n in nodes):
+        return False
+
+    def connected(skip):
+        rest = [n for n in nodes if n not in skip]
+        if not rest:
+            return True
+        seen = {rest[0]}
+        st = [rest[0]]
+        while st:
+            x = st.pop()
+            for y in g[x]:
+                if y not in skip and y not in seen:
+                    seen.add(y)
+                    st.append(y)
+        return len(seen) == len(rest)
+    for i, a in enumerate(nodes):
+        if not connected({a}):
+            return False
+        for b in nodes[i + 1:]:
+            if not connected({a, b}):
+                return False
+    return True
+
+
 def excl_ii(atoms, adj, orb=None):
-    """(ii) a biconnected ring system with cyclomatic number >= 3 that contains two constitutionally equivalent atoms each
-    having >= 3 neighbours inside the system (prismane-like cages)."""
+    """(ii) "cage-like ring systems with three or more rings whose ring atoms are symmetry equivalent (prismane-like)", read graph-theoretically:
+    a biconnected ring system with cyclomatic number >= 3 whose skeleton (two-coordinate ring atoms suppressed) is a polyhedral graph
+    (3-connected: prism, cube, tetrahedron = adamantane, hexagonal prism = coronene) and that contains two constitutionally equivalent
+    branching atoms; or the same with a saturated ring atom in the system (three-dimensional polycycles: prismane, its partly opened relatives,
+    adamantane, twistane). Fully conjugated planar ring systems whose skeleton falls apart when two atoms are removed (anthracene,
+    phenanthrene, triphenylene, perylene, biphenylene) are not cage-like under any reading and are inside the claimed domain; so are all
+    systems with fewer than three rings."""
     orb = orb or orbits(atoms, adj)
     g = {n: set(adj[n]) for n in adj}
     for blk in cycles._blocks(g):
         sub = {n: g[n] & blk for n in blk}
         if cycles.cyclomatic(sub) < 3:
             continue
-        heavy = [n for n in blk if len(sub[n]) >= 3]
+        red = _reduced(sub)
+        saturated = any(all(o == 1 for o in adj[n].values()) for n in blk)   # a ring atom without any multiple / aromatic bond: not a planar conjugated system
+        if not saturated and not _three_connected(red):
+            continue
         seen = {}
-        for n in heavy:
+        for n in red:
             if orb[n] in seen:
                 return True
             seen[orb[n]] = n
